@@ -507,12 +507,154 @@ theorem loops_complete (ks : List F) (hh : F) (point : List F) (hn : point.lengt
 
 end Check
 
+/-! ### consequences of acceptance -/
+
+section Accept
+variable [DecidableEq F]
+
+/-- with a fixed proof list at most one value vector is accepted (given `com_key[0] ≠ 0`) -/
+theorem checkLoop_values_unique (ks : List F) (hh : F) (L R : List F) (dim : Nat) (k0 : F)
+    (hk : key0 ks = some k0) (h0 : k0 ≠ 0) (πs : List (Proof F)) :
+    ∀ (coms : List (List F)) (vs vs' cs : List F),
+      coms.length = πs.length → vs.length = πs.length → vs'.length = πs.length →
+      checkLoop ks hh L R dim coms vs πs cs = .ok true →
+      checkLoop ks hh L R dim coms vs' πs cs = .ok true → vs = vs' := by
+  induction πs with
+  | nil =>
+    intro coms vs vs' cs _ h2 h3 _ _
+    have a : vs = [] := List.length_eq_zero_iff.1 (by simpa using h2)
+    have b : vs' = [] := List.length_eq_zero_iff.1 (by simpa using h3)
+    rw [a, b]
+  | cons π πs ih =>
+    intro coms vs vs' cs h1 h2 h3 a b
+    cases coms with
+    | nil => simp at h1
+    | cons com coms =>
+    cases vs with
+    | nil => simp at h2
+    | cons v vs =>
+    cases vs' with
+    | nil => simp at h3
+    | cons v' vs' =>
+    cases cs with
+    | nil => exact absurd a (checkLoop_cons_nil ks hh L R dim com coms v vs π πs)
+    | cons c cs =>
+      rw [checkLoop_cons_iff] at a b
+      obtain ⟨⟨k1, hk1, _, _, e1, _, _⟩, a2⟩ := a
+      obtain ⟨⟨k2, hk2, _, _, e2, _, _⟩, b2⟩ := b
+      rw [hk] at hk1 hk2
+      cases hk1; cases hk2
+      have : k0 * (v - v') = 0 := by
+        unfold defectEval at e1 e2
+        linear_combination e2 - e1
+      rcases mul_eq_zero.1 this with h | h
+      · exact absurd h h0
+      · rw [sub_eq_zero.1 h, ih coms vs vs' cs (by simpa using h1) (by simpa using h2)
+          (by simpa using h3) a2 b2]
+
+/-- an accepted transcript has the right shapes -/
+theorem checkLoop_shapes (ks : List F) (hh : F) (L R : List F) (dim : Nat) (πs : List (Proof F)) :
+    ∀ (coms : List (List F)) (vs cs : List F),
+      coms.length = πs.length → vs.length = πs.length →
+      checkLoop ks hh L R dim coms vs πs cs = .ok true →
+      (∀ c ∈ coms, c.length = dim) ∧ (∀ π ∈ πs, π.z.length = ks.length) ∧ πs.length ≤ cs.length := by
+  induction πs with
+  | nil =>
+    intro coms vs cs h1 _ _
+    have a : coms = [] := List.length_eq_zero_iff.1 (by simpa using h1)
+    subst a
+    simp
+  | cons π πs ih =>
+    intro coms vs cs h1 h2 a
+    cases coms with
+    | nil => simp at h1
+    | cons com coms =>
+    cases vs with
+    | nil => simp at h2
+    | cons v vs =>
+    cases cs with
+    | nil => exact absurd a (checkLoop_cons_nil ks hh L R dim com coms v vs π πs)
+    | cons c cs =>
+      rw [checkLoop_cons_iff] at a
+      obtain ⟨⟨k1, _, e1, e2, _, _, _⟩, a2⟩ := a
+      obtain ⟨i1, i2, i3⟩ := ih coms vs cs (by simpa using h1) (by simpa using h2) a2
+      refine ⟨?_, ?_, by simpa using i3⟩
+      · intro x hx
+        rcases List.mem_cons.1 hx with rfl | hx
+        · exact e1
+        · exact i1 x hx
+      · intro x hx
+        rcases List.mem_cons.1 hx with rfl | hx
+        · exact e2.symm
+        · exact i2 x hx
+
+end Accept
+
+/-- replacing entry `j` of `z`: the dot product with the key moves by `ks[j]·(x₁ − x₂)` -/
+theorem dot_set_sub (ks z : List F) (j : Nat) (x₁ x₂ : F) (hj : j < z.length) :
+    dot ks (z.set j x₁) - dot ks (z.set j x₂) = getD' ks j 0 * (x₁ - x₂) := by
+  induction ks generalizing z j with
+  | nil => simp [dot, getD']
+  | cons k ks ih =>
+    cases z with
+    | nil => simp at hj
+    | cons y ys =>
+      cases j with
+      | zero => simp only [List.set_cons_zero, dot_cons, getD']; simp; ring
+      | succ j =>
+        simp only [List.set_cons_succ, dot_cons]
+        have := ih ys j (by simpa using hj)
+        simp only [getD'] at this ⊢
+        simp only [List.getElem?_cons_succ]
+        linear_combination this
+
+theorem getD'_zipWith_add (a b : List F) (i : Nat) (h : a.length = b.length) :
+    getD' (List.zipWith (· + ·) a b) i 0 = getD' a i 0 + getD' b i 0 := by
+  unfold getD'
+  rw [List.getElem?_zipWith]
+  by_cases hi : i < a.length
+  · have hb : i < b.length := by omega
+    simp [List.getElem?_eq_getElem hi, List.getElem?_eq_getElem hb]
+  · have ha : a[i]? = none := List.getElem?_eq_none (by omega)
+    have hb : b[i]? = none := List.getElem?_eq_none (by omega)
+    simp [ha, hb]
+
+/-! ### linearity of the row commitments -/
+
+theorem getD'_rowCommits (ks : List F) (hh : F) (evals ρ : List F) (d r : Nat) (hr : r < d)
+    (hρ : d ≤ ρ.length) :
+    getD' (rowCommits ks hh (rowsOf evals d d) ρ) r 0
+      = dot ks ((List.range d).map fun col => getD' evals (col * d + r) 0) + hh * getD' ρ r 0 := by
+  unfold rowCommits rowsOf getD'
+  have h2 : r < ρ.length := by omega
+  simp [hr, h2]
+
+theorem rowCommits_add (ks : List F) (hh : F) (e₁ e₂ ρ σ : List F) (d : Nat)
+    (he : e₁.length = e₂.length) (hρ : ρ.length = d) (hσ : σ.length = d) :
+    rowCommits ks hh (rowsOf (vectorSum e₁ e₂) d d) (vectorSum ρ σ)
+      = vectorSum (rowCommits ks hh (rowsOf e₁ d d) ρ) (rowCommits ks hh (rowsOf e₂ d d) σ) := by
+  apply List.ext_getElem
+  · simp [rowCommits, vectorSum, rowsOf, hρ, hσ]
+  · intro i h1 h2
+    have hi : i < d := by
+      simp [rowCommits, vectorSum, rowsOf, hρ, hσ] at h1; exact h1
+    simp only [rowCommits, vectorSum, rowsOf, List.getElem_zipWith, List.getElem_map,
+      List.getElem_range]
+    have : ((List.range d).map fun col => getD' (List.zipWith (· + ·) e₁ e₂) (col * d + i) 0)
+        = (List.range d).map fun col => getD' e₁ (col * d + i) 0 + getD' e₂ (col * d + i) 0 := by
+      apply List.map_congr_left
+      intro col _
+      exact getD'_zipWith_add e₁ e₂ _ he
+    rw [this, dot_comm ks, dot_map_add, dot_comm _ ks, dot_comm _ ks]
+    ring
+
 /-! ### totality of the honest run (non-vacuity of the completeness theorem) -/
 
 /-- the `open` inputs of an honest run: polynomial `i` with the state `commit` returned for it -/
 def honestItems (polys : List (MLPoly F)) (sts : List (State F)) : List (OpenItem F) :=
   List.zipWith (fun p st => (⟨[], [], p.nv, st⟩ : OpenItem F)) polys sts
 
+omit [Field F] in
 theorem honestItems_st (polys : List (MLPoly F)) (sts : List (State F))
     (h : polys.length = sts.length) : (honestItems polys sts).map (·.st) = sts := by
   unfold honestItems
@@ -524,6 +666,7 @@ theorem honestItems_st (polys : List (MLPoly F)) (sts : List (State F))
     | nil => simp at h
     | cons st sts => simp [ih sts (by simpa using h)]
 
+omit [Field F] in
 theorem key0_of_length_pos (ks : List F) (h : 0 < ks.length) : ∃ k0, key0 ks = some k0 := by
   cases ks with
   | nil => simp at h
@@ -568,7 +711,14 @@ theorem honest_loops_total (ks : List F) (hh : F) (point : List F) (hn : point.l
         (drawRD (2 ^ (point.length / 2)) odraws) (drawRB (2 ^ (point.length / 2)) odraws) ch k0
         (tensorL_length point hn) hdl hk0
       rw [hdim] at hc1
-      refine ⟨_ :: coms, _ :: sts, rest, _ :: πs, ?_, by simp [ihl], ?_⟩
+      refine ⟨rowCommits ks hh (rowsOf p.evals (2 ^ (point.length / 2)) (2 ^ (point.length / 2)))
+            (ρdraws.take (2 ^ (point.length / 2))) :: coms,
+          ⟨ρdraws.take (2 ^ (point.length / 2)), ⟨2 ^ (point.length / 2), 2 ^ (point.length / 2),
+            rowsOf p.evals (2 ^ (point.length / 2)) (2 ^ (point.length / 2))⟩⟩ :: sts, rest,
+          honestProof k0 hh ks (tensorL point) (tensorR point) (ρdraws.take (2 ^ (point.length / 2)))
+            (ltOf (tensorL point) p.evals (2 ^ (point.length / 2))) (drawREval odraws)
+            (drawD (2 ^ (point.length / 2)) odraws) (drawRD (2 ^ (point.length / 2)) odraws)
+            (drawRB (2 ^ (point.length / 2)) odraws) ch :: πs, ?_, by simp [ihl], ?_⟩
       · unfold commit
         rw [hc1]
         simp only
